@@ -163,3 +163,59 @@ class ScriptedStub:
             return result
 
         return call(*args, **kwargs)
+
+
+
+class ScriptedRng:
+    """numpy RandomState whose draws are the values of the counter-model (in order)"""
+
+    def __init__(self, world):
+        self._world = world
+
+    def __deepcopy__(self, memo):
+        return self
+
+    def _next(self, kind):
+        from replay import builders as B
+
+        w = self._world
+        if w.pos >= len(w.returns):
+            raise ReplayDiverged("native run draws more random numbers than the counter-model has")
+        i2, n2, val = w.returns[w.pos]
+        if i2 != "rng":
+            raise ReplayDiverged("native run draws a random number where the counter-model has %s.%s" % (i2, n2))
+        w.pos += 1
+        return B.num(w.ctx, val)
+
+    def _many(self, kind, size):
+        import numpy as np
+
+        if size is None:
+            return self._next(kind)
+        n = int(np.prod(size)) if not isinstance(size, int) else size
+        return np.array([self._next(kind) for _ in range(n)])
+
+    def uniform(self, low=0.0, high=1.0, size=None):
+        return self._many("uniform", size)
+
+    def randint(self, low, high=None, size=None):
+        import numpy as np
+
+        r = self._many("randint", size)
+        return r.astype(int) if isinstance(r, np.ndarray) else int(r)
+
+    def rand(self, *shape):
+        return self._many("rand", shape if shape else None)
+
+    def choice(self, a, size=None, **kw):
+        import numpy as np
+
+        idx = self._many("choice", size)
+        if isinstance(a, int):
+            return idx.astype(int) if isinstance(idx, np.ndarray) else int(idx)
+        if isinstance(idx, np.ndarray):
+            return np.array([a[int(i)] for i in idx])
+        return a[int(idx)]
+
+    def normal(self, *a, **k):
+        return self._many("normal", k.get("size"))
